@@ -76,6 +76,7 @@ type histRun struct {
 	maybePending map[int]map[string]bool
 	reqTarget    map[int]map[uint64]string // call/new requests → target rid
 	driftTag     map[string]string         // "cid rid" → known-finding tag of a counter seen off before
+	counterSeen  map[string]bool           // structural violations already reported (they persist)
 	// ppoints: clock values at which the gateway was idle with at most service
 	// requests outstanding (everything published before has been processed)
 	ppoints       []int64
@@ -320,6 +321,7 @@ func (h *histRun) settle() bool {
 				return false
 			}
 			h.ppoints = append(h.ppoints, h.g.Clock.Tick())
+			h.checkCountersAll()
 		}
 		r := h.pickOutstanding()
 		if r == nil {
@@ -602,6 +604,7 @@ func (h *histRun) step() {
 			h.res.Inconclusive = "quiesce: " + err.Error()
 		} else {
 			h.ppoints = append(h.ppoints, h.g.Clock.Tick())
+			h.checkCountersAll()
 		}
 	case "reset":
 		h.reset()
@@ -868,6 +871,115 @@ func (h *histRun) hasConnNote(site, cid string) bool {
 	return false
 }
 
+// checkCounters asserts the structural invariants of one connection's
+// subscriptions at a point where the gateway is idle (service requests may be
+// outstanding): the reference counters the retention decisions are based on
+// agree with the reference graph.
+func (h *histRun) checkCounters(c *WSClient, snap server.VerifConnSnap, now int64) {
+	// --- C02 structure: the reference counters the retention decisions
+	// (tryDelete / Unsend / populateResources) are based on must agree
+	// with the reference graph of the connection's subscriptions
+	wantInd := map[string]int{}
+	wantSent := map[string]int{}
+	for _, ps := range snap.Subs {
+		for ref := range ps.Refs {
+			wantInd[ref]++
+			if (ps.State == 5 || ps.State == 6) && !ps.PendingRefs[ref] {
+				wantSent[ref]++
+			}
+		}
+	}
+	if h.counterSeen == nil {
+		h.counterSeen = map[string]bool{}
+	}
+	for rid, hs := range snap.Subs {
+		h.stat("c02_counters_checked", 1)
+		ws := wantSent[rid]
+		if hs.State != 5 && hs.State != 6 {
+			ws = 0 // not (or no longer) sent: Unsend resets the counter
+		}
+		if hs.Err != "" {
+			// an error placeholder is re-sent with every populate and has
+			// no references of its own: its sent counter decides nothing
+			ws = hs.IndirectSent
+		}
+		if hs.State == 5 && hs.Direct == 0 && hs.IndirectSent == 0 && hs.Indirect == wantInd[rid] && ws == 0 {
+			// marked as sent to the client although neither a direct
+			// subscription nor a sent parent holds it: the client has
+			// dropped it, a later reference will come without its data
+			sig := "sentWithoutHolder"
+			if h.hasNote("populate.deleted", c.CID, rid) {
+				sig += ".populateDeleted"
+			}
+			if key := fmt.Sprintf("h %s %s", c.CID, rid); !h.counterSeen[key] {
+				h.counterSeen[key] = true
+				h.viol(Viol{Prop: "C02", Conn: c.Idx, T: now, RID: rid, Sig: sig,
+					Msg: fmt.Sprintf("subscription %s is in state sent with no direct subscription and no sent parent (indirect=%d); all subs: %s", rid, hs.Indirect, subsSummary(snap))})
+			}
+		}
+		if hs.Indirect != wantInd[rid] || hs.IndirectSent != ws {
+			sig := "refCountDrift"
+			if hs.Indirect == wantInd[rid] {
+				sig = "sentCountDrift"
+			}
+			// finding C: a deleted subscription that is populated again is
+			// re-sent, counting its references a second time
+			revived := h.hasNote("populate.deleted", c.CID, rid)
+			// an event processed on an unsent subscription of this connection
+			// may have added or removed a reference to this one meanwhile
+			unsent := h.hasConnNote("sub.eventUnsent", c.CID)
+			for prid, ps := range snap.Subs {
+				if _, ok := ps.Refs[rid]; ok {
+					revived = revived || h.hasNote("populate.deleted", c.CID, prid)
+					unsent = unsent || h.hasNote("sub.eventUnsent", c.CID, prid)
+				}
+			}
+			if h.driftTag == nil {
+				h.driftTag = map[string]string{}
+			}
+			if prev := h.driftTag[c.CID+" "+rid]; prev != "" && !revived && !unsent {
+				// the same counter was already off at an earlier quiescent
+				// point, for a known reason: the offset stays
+				sig += prev
+			} else if revived {
+				sig += ".populateDeleted"
+				h.driftTag[c.CID+" "+rid] = ".populateDeleted"
+			} else if unsent {
+				h.driftTag[c.CID+" "+rid] = ".eventWhileUnsent"
+				// finding E: the affected subscription, or one referring to
+				// it, processed an event while marked as not sent (hook note
+				// sub.eventUnsent): a reference it added is counted as sent,
+				// a delete makes it count as a sent parent again
+				sig += ".eventWhileUnsent"
+			}
+			if key := fmt.Sprintf("d %s %s %d %d %d %d", c.CID, rid, hs.Indirect, hs.IndirectSent, wantInd[rid], ws); !h.counterSeen[key] {
+				h.counterSeen[key] = true
+				h.viol(Viol{Prop: "C02", Conn: c.Idx, T: now, RID: rid, Sig: sig,
+					Msg: fmt.Sprintf("subscription %s counts indirect=%d indirectsent=%d but %d subscriptions refer to it, %d of them sent; all subs: %s", rid, hs.Indirect, hs.IndirectSent, wantInd[rid], wantSent[rid], subsSummary(snap))})
+			}
+		}
+	}
+}
+
+// checkCountersAll runs the counter invariants for every open connection (the
+// gateway is idle; service requests may be outstanding).
+func (h *histRun) checkCountersAll() {
+	snaps := map[string]server.VerifConnSnap{}
+	for _, s := range h.g.Svc.VerifConns() {
+		snaps[s.CID] = s
+	}
+	now := h.g.Clock.Now()
+	for _, c := range h.g.clientsSnapshot() {
+		if c.IsClosed() || h.rcs[c] == nil {
+			continue
+		}
+		if snap, ok := snaps[c.CID]; ok && snap.Reachable {
+			h.checkCounters(c, snap, now)
+			h.stat("c02_partial_counter_checks", 1)
+		}
+	}
+}
+
 func (h *histRun) hasNote(site, cid, rid string) bool {
 	want := cid + " " + rid
 	for _, n := range verifhook.Notes() {
@@ -1044,80 +1156,7 @@ func (h *histRun) checkQuiescent(final bool) {
 						Msg: fmt.Sprintf("subscription %s left behind with no direct or indirect use (state=%d refs=%v); all subs: %s", rid, hs.State, hs.Refs, subsSummary(snap))})
 				}
 			}
-			// --- C02 structure: the reference counters the retention decisions
-			// (tryDelete / Unsend / populateResources) are based on must agree
-			// with the reference graph of the connection's subscriptions
-			wantInd := map[string]int{}
-			wantSent := map[string]int{}
-			for _, ps := range snap.Subs {
-				for ref := range ps.Refs {
-					wantInd[ref]++
-					if ps.State == 5 || ps.State == 6 {
-						wantSent[ref]++
-					}
-				}
-			}
-			for rid, hs := range snap.Subs {
-				h.stat("c02_counters_checked", 1)
-				ws := wantSent[rid]
-				if hs.State != 5 && hs.State != 6 {
-					ws = 0 // not (or no longer) sent: Unsend resets the counter
-				}
-				if hs.Err != "" {
-					// an error placeholder is re-sent with every populate and has
-					// no references of its own: its sent counter decides nothing
-					ws = hs.IndirectSent
-				}
-				if hs.State == 5 && hs.Direct == 0 && hs.IndirectSent == 0 && hs.Indirect == wantInd[rid] && ws == 0 {
-					// marked as sent to the client although neither a direct
-					// subscription nor a sent parent holds it: the client has
-					// dropped it, a later reference will come without its data
-					sig := "sentWithoutHolder"
-					if h.hasNote("populate.deleted", c.CID, rid) {
-						sig += ".populateDeleted"
-					}
-					h.viol(Viol{Prop: "C02", Conn: c.Idx, T: now, RID: rid, Sig: sig,
-						Msg: fmt.Sprintf("subscription %s is in state sent with no direct subscription and no sent parent (indirect=%d); all subs: %s", rid, hs.Indirect, subsSummary(snap))})
-				}
-				if hs.Indirect != wantInd[rid] || hs.IndirectSent != ws {
-					sig := "refCountDrift"
-					if hs.Indirect == wantInd[rid] {
-						sig = "sentCountDrift"
-					}
-					// finding C: a deleted subscription that is populated again is
-					// re-sent, counting its references a second time
-					revived := h.hasNote("populate.deleted", c.CID, rid)
-					// an event processed on an unsent subscription of this connection
-					// may have added or removed a reference to this one meanwhile
-					unsent := h.hasConnNote("sub.eventUnsent", c.CID)
-					for prid, ps := range snap.Subs {
-						if _, ok := ps.Refs[rid]; ok {
-							revived = revived || h.hasNote("populate.deleted", c.CID, prid)
-							unsent = unsent || h.hasNote("sub.eventUnsent", c.CID, prid)
-						}
-					}
-					if h.driftTag == nil {
-						h.driftTag = map[string]string{}
-					}
-					if prev := h.driftTag[c.CID+" "+rid]; prev != "" && !revived && !unsent {
-						// the same counter was already off at an earlier quiescent
-						// point, for a known reason: the offset stays
-						sig += prev
-					} else if revived {
-						sig += ".populateDeleted"
-						h.driftTag[c.CID+" "+rid] = ".populateDeleted"
-					} else if unsent {
-						h.driftTag[c.CID+" "+rid] = ".eventWhileUnsent"
-						// finding E: the affected subscription, or one referring to
-						// it, processed an event while marked as not sent (hook note
-						// sub.eventUnsent): a reference it added is counted as sent,
-						// a delete makes it count as a sent parent again
-						sig += ".eventWhileUnsent"
-					}
-					h.viol(Viol{Prop: "C02", Conn: c.Idx, T: now, RID: rid, Sig: sig,
-						Msg: fmt.Sprintf("subscription %s counts indirect=%d indirectsent=%d but %d subscriptions refer to it, %d of them sent; all subs: %s", rid, hs.Indirect, hs.IndirectSent, wantInd[rid], wantSent[rid], subsSummary(snap))})
-				}
-			}
+			h.checkCounters(c, snap, now)
 			// --- C02 cross-check: what the gateway believes the client holds
 			for rid, hs := range snap.Subs {
 				_, held := rc.Cache[rid]
